@@ -866,7 +866,7 @@ def undeclared_members(doc: dict, s: Any, v: Any, depth: int = 0) -> set:
                 return undeclared_members(doc, a, v, depth + 1)
         return out
     if "allOf" in s:
-        s = merge_all_of(doc, s)
+        s = merge_all_of(doc, s, v)
     if isinstance(v, dict) and isinstance(s.get("properties"), dict):
         ap = s.get("additionalProperties")
         for k, x in v.items():
@@ -1027,9 +1027,11 @@ def _array_candidates(doc: dict, s: dict, depth: int, budget: int) -> list:
     return out
 
 
-def merge_all_of(doc: dict, s: dict) -> dict:
+def merge_all_of(doc: dict, s: dict, value: Any = None) -> dict:
     """flatten allOf of object parts (refs resolved) into one object schema — used for instance
-    construction and by the normal form"""
+    construction and by the normal form. With `value`: a `oneOf` / `anyOf` standing in the schema or in one of
+    its parts contributes the first alternative under which `value` is valid (which members are declared then
+    depends on the instance)."""
     props: dict = {}
     req: list = []
     ap = None
@@ -1041,7 +1043,16 @@ def merge_all_of(doc: dict, s: dict) -> dict:
             bare_req += list(part["required"])
         p = resolve(doc, part)
         if "allOf" in p:
-            p = merge_all_of(doc, p)
+            p = merge_all_of(doc, p, value)
+        if value is not None:
+            for key in ("oneOf", "anyOf"):
+                for alt in p.get(key) or []:
+                    if isinstance(alt, dict) and sub_validator(doc, alt).is_valid(value):
+                        pa = resolve(doc, alt)
+                        if "allOf" in pa or "oneOf" in pa or "anyOf" in pa:
+                            pa = merge_all_of(doc, pa, value)
+                        p = {**p, "properties": {**(p.get("properties") or {}), **(pa.get("properties") or {})}}
+                        break
         for nm in p.get("properties", {}):
             from_ref[nm] = "$ref" in part
             own_req[nm] = nm in p.get("required", [])
@@ -1256,8 +1267,9 @@ def _del_path(inst: Any, path: list) -> Any:
     return new
 
 
-def _walk(doc: dict, s: dict, value: Any, path: list, loc: str, in_union: bool, out: list, root: Any, depth: int = 0) -> None:
-    """collect raw mutations (not yet confirmed) below schema s / value"""
+def _walk(doc: dict, s: dict, value: Any, path: list, loc: str, in_union: bool, out: list, root: Any, depth: int = 0, ctx_cause: str = "none") -> None:
+    """collect raw mutations (not yet confirmed) below schema s / value; `ctx_cause`: trigger class inherited from
+    an enclosing construct (the value schema of a map object behind a nullable type list)"""
     if depth > 6 or not isinstance(s, dict):
         return
     sr = resolve(doc, s)
@@ -1266,7 +1278,7 @@ def _walk(doc: dict, s: dict, value: Any, path: list, loc: str, in_union: bool, 
         for i, alt in enumerate(alts):
             if sub_validator(doc, alt).is_valid(value):
                 n0 = len(out)
-                _walk(doc, alt, value, path, loc, True, out, root, depth + 1)
+                _walk(doc, alt, value, path, loc, True, out, root, depth + 1, ctx_cause)
                 others = [resolve(doc, a) for j, a in enumerate(alts) if j != i]
                 for m in out[n0:]:
                     if m.path == path:
@@ -1276,8 +1288,9 @@ def _walk(doc: dict, s: dict, value: Any, path: list, loc: str, in_union: bool, 
     if "allOf" in sr:
         sr = merge_all_of(doc, sr)
     for kw, v, leaf in _leaf_mutations(doc, sr, value, loc):
-        out.append(Mutation(_set_path(root, path, v), kw, loc, path, leaf, _cause(kw, leaf), in_union, v))
-    if isinstance(value, dict) and ("properties" in sr or sr.get("type") == "object"):
+        c0 = _cause(kw, leaf)
+        out.append(Mutation(_set_path(root, path, v), kw, loc, path, leaf, c0 if c0 != "none" else ctx_cause, in_union, v))
+    if isinstance(value, dict) and ("properties" in sr or "object" in types_of(sr)):
         props = sr.get("properties", {})
         for nm in sr.get("required", []):
             if nm in value:
@@ -1294,7 +1307,7 @@ def _walk(doc: dict, s: dict, value: Any, path: list, loc: str, in_union: bool, 
             if nm in value:
                 if value[nm] is None:
                     continue
-                _walk(doc, psch, value[nm], [*path, nm], "member", in_union, out, root, depth + 1)
+                _walk(doc, psch, value[nm], [*path, nm], "member", in_union, out, root, depth + 1, ctx_cause)
                 # null for a required, non-nullable member is a type violation
                 if nm in sr.get("required", []) and not admits_null(doc, psch):
                     pr = resolve(doc, psch)
@@ -1302,12 +1315,13 @@ def _walk(doc: dict, s: dict, value: Any, path: list, loc: str, in_union: bool, 
                     out.append(Mutation(_set_path(root, [*path, nm], None), "type", "member", [*path, nm], pr, cause, in_union, None))
         ap = sr.get("additionalProperties")
         if isinstance(ap, dict) and not props:
+            nmap = "nullable_map_value" if isinstance(sr.get("type"), list) and "null" in sr["type"] else ctx_cause
             for k, v in value.items():
-                _walk(doc, ap, v, [*path, k], "ap_value", in_union, out, root, depth + 1)
+                _walk(doc, ap, v, [*path, k], "ap_value", in_union, out, root, depth + 1, nmap)
                 break
     if isinstance(value, list) and isinstance(sr.get("items"), dict):
         for i, v in enumerate(value[:1]):
-            _walk(doc, sr["items"], v, [*path, i], "array_item", in_union, out, root, depth + 1)
+            _walk(doc, sr["items"], v, [*path, i], "array_item", in_union, out, root, depth + 1, ctx_cause)
 
 
 def mutations(doc: dict, instance: Any) -> list[Mutation]:
@@ -1320,6 +1334,12 @@ def mutations(doc: dict, instance: Any) -> list[Mutation]:
     out = []
     for m in raw:
         errs = list(v.iter_errors(m.instance))
+        if len(errs) > 1 and m.keyword == "required" and all(
+            e.validator == "required" and list(e.absolute_path) == m.path[:-1] and e.message.startswith(repr(m.path[-1]) + " is a required")
+            for e in errs
+        ):
+            # the same member required by several parts of an allOf (the class and one of its bases): one violation
+            errs = errs[:1]
         if len(errs) != 1:
             continue
         e = errs[0]
@@ -1328,6 +1348,11 @@ def mutations(doc: dict, instance: Any) -> list[Mutation]:
             # alternative may accept it
             subs = [c.validator for c in e.context or []]
             if m.keyword not in subs and not (m.keyword == "minimum" and "exclusiveMinimum" in subs):
+                continue
+            # one-step means ONE violated constraint: a value that another alternative refuses only because of a
+            # bound of its own (a wrong-typed `[]` next to an array alternative with minItems) violates two
+            same = {m.keyword, *({"exclusiveMinimum", "exclusiveMaximum"} if m.keyword in ("minimum", "maximum") else ())}
+            if any(c in (*BOUND_KEYS, *STR_KEYS, *ARR_KEYS) and c not in same for c in subs):
                 continue
             m.in_union = True
         else:
@@ -1361,6 +1386,8 @@ def lax_coercible(style: str, value: Any, alt: dict) -> bool:
             return True
         if t == "integer" and style == "v1" and isinstance(value, float):
             return True  # v1: int(1.5)
+        if t == "object" and style == "v1" and isinstance(value, (list, tuple)):
+            return True  # v1: dict([]) / a sequence of pairs -> dict
         if t == "boolean" and (value in (0, 1) or (isinstance(value, str) and value.lower() in ("0", "1", "on", "off", "t", "f", "true", "false", "y", "n", "yes", "no"))):
             return True
     return False
